@@ -372,6 +372,21 @@ class Context:
 
             return descriptor
 
+        # Object.prototype.__proto__ is an accessor that every object inherits
+        def proto_getter(this_val, *args):
+            if isinstance(this_val, JSObject) and this_val._prototype is not None:
+                return this_val._prototype
+            return NULL
+
+        def proto_setter(this_val, *args):
+            value = args[0] if args else UNDEFINED
+            if value is NULL or isinstance(value, JSObject):
+                set_prototype_of(this_val, value)
+            return UNDEFINED
+
+        object_prototype.define_getter("__proto__", JSBoundMethod(proto_getter))
+        object_prototype.define_setter("__proto__", JSBoundMethod(proto_setter))
+
         obj_constructor.set("keys", keys_fn)
         obj_constructor.set("values", values_fn)
         obj_constructor.set("entries", entries_fn)
